@@ -279,6 +279,7 @@ fn arg_json(a: &CmdArg) -> Value {
 		CmdArg::Literal(v) => json!(["lit", v.to_string()]),
 		CmdArg::Var(v) => json!(["var", v]),
 		CmdArg::Count(n) => json!(["count", n]),
+		CmdArg::Expr(crate::vic::Expr::Literal(s)) => json!(["elit", s]),
 		CmdArg::Expr(e) => json!(["expr", format!("{e:?}")]),
 	}
 }
